@@ -85,7 +85,8 @@ extern scen_t S;
 
 /* deadline codes */
 #define DL_NONE 0
-#define DL_NCODES 11
+#define DL_NCODES 12
+#define DL_PREEPOCH 11      /* notes only: a deadline before the epoch (tv_sec < 0); modelled as "time zero" */
 int64_t dl_offset_ns (int code);
 
 #endif
